@@ -374,8 +374,8 @@ def rand_steps(rng):
         elif k == "amp": out.append(["amp", rng.randrange(0, 128)])
         elif k == "tag": out.append(["tag", rng.choice(["x", "y"])])
         elif k == "dyn": out.append(["dyn", rng.choice(list(DYN))])
-        elif k == "acc": out.append(["acc", rng.choice(["sharp", "flat", "natural"])])
-        elif k == "mode": out.append(["mode", rng.choice(["m", "mm", "M", "dorian"])])
+        elif k == "acc": out.append(["acc", rng.choice(ACCS)])
+        elif k == "mode": out.append(["mode", rng.choice(MODES)])
     return out
 
 
@@ -449,5 +449,70 @@ class BuiltEq(Stream):
                 yield {"notes": ns[:i] + [[b, st[:j] + st[j + 1:]]] + ns[i + 1:]}
 
 
+def read_fnote(n):
+    """every field of a live note, exactly (the dynamics as the rational the stored int/float denotes)"""
+    t = n.type
+    kind, d = (t[0], t[1:]) if len(t) == 2 and t[1] in "ud" and t[0] in "shcb" else (t, "")
+    out = {"kind": kind, "dir": d, "val": int(n.val), "oct": int(n.octave), "dur": F(n.duration), "amp": F(n.amp), "tags": sorted(n.tags)}
+    if n.mode is not None: out["mode"] = n.mode
+    if n.accident is not None: out["acc"] = n.accident
+    return out
+
+
+def coq_fnote_exact(n):
+    tags = L([S(t) for t in n["tags"]])
+    return (f"(mkF {mlang.KIND_C[n['kind']]} {mlang.DIR_C[n['dir']]} {Z(n['val'])} {Z(n['oct'])} {Qc(n['dur'])} "
+            f"{O(n.get('mode'), lambda m: mlang.MODE_C[m])} {O(n.get('acc'), lambda a: mlang.ACC_C[a])} {Qc(n['amp'])} {tags})")
+
+
+class NoteCopy(Stream):
+    """Note.copy / Silence.copy / Continuation.copy field by field against Copy.note_copy"""
+    name = "note_copy"
+    mods = MODEL_MODS + ["Model.Copy"]
+    checker = "check_note_copy"
+    pair = "Note.copy / Silence.copy / Continuation.copy (every field of the copy) <-> Copy.note_copy"
+    quick, thorough = 1500, 20000
+
+    def gen(self, rng, n):
+        for _ in range(n):
+            yield {"base": rng.choice(BASES), "steps": rand_steps(rng)}
+
+    def impl(self, case):
+        def f():
+            x = build_note(case["base"], case["steps"])
+            return {"note": read_fnote(x), "copy": read_fnote(x.copy())}
+        return mlang.guarded(f)
+
+    def skip(self, case, r):
+        return mlang.is_exc(r) or r["note"]["kind"] not in mlang.KIND_C
+
+    def term(self, case, r):
+        if self.skip(case, r):
+            # an operation the library rejects builds no note: a trivially true instance keeps the case stream aligned
+            z = {"kind": "s", "dir": "", "val": 0, "oct": 0, "dur": F(1), "amp": F(66), "tags": []}
+            return T(coq_fnote_exact(z), coq_fnote_exact(z))
+        return T(coq_fnote_exact(r["note"]), coq_fnote_exact(r["copy"]))
+
+    def spec(self, case, r):
+        if self.skip(case, r):
+            return None
+        a, b = r["note"], r["copy"]
+        for k in ("kind", "dir", "val", "oct", "dur", "mode"):
+            if a.get(k) != b.get(k):
+                return {"sig": f"copy-changes:{k}", "msg": f"{case}: {k} {a.get(k)} -> {b.get(k)} (a field == compares)"}
+        return None
+
+    def nontrivial(self, case, r):
+        return not self.skip(case, r) and bool(case["steps"])
+
+    def hist_keys(self, case, r):
+        return ["copy-skip" if self.skip(case, r) else "copy-kind=" + r["note"]["kind"]]
+
+    def shrink(self, case):
+        st = case["steps"]
+        for j in range(len(st)):
+            yield dict(case, steps=st[:j] + st[j + 1:])
+
+
 def streams():
-    return [NoteEq(), AmpFigure(), TonEq(), MelodyEq(), ChordEq(), ScoreEq(), BuiltEq()]
+    return [NoteEq(), AmpFigure(), TonEq(), MelodyEq(), ChordEq(), ScoreEq(), BuiltEq(), NoteCopy()]
